@@ -57,6 +57,9 @@ static void emitCfg() {
 }
 
 static void destroyAll() {
+	bool any = false;
+	for (int i = 0; i < MAX_INST; ++i) any = any || (g_inst[i] && g_inst[i]->m);
+	if (any) g_rec.s("{\"e\":\"mark\",\"k\":\"none\"}\n");		// tear-down is not part of any cross-instance scenario
 	for (int i = 0; i < MAX_INST; ++i)
 		if (g_inst[i]) {
 			if (g_inst[i]->m) {
@@ -160,10 +163,10 @@ static Op randomOp(Rng& r, Inst* in, bool allowLifecycle) {
 	return o;
 }
 
-static void runOn(int idx, const Op& o, ProviderMode mode) {
+static bool runOn(int idx, const Op& o, ProviderMode mode) {
 	g_prov.mode = mode;
 	g_prov.seen.clear(); g_prov.replayPos = 0; g_prov.deliveries = 0;
-	execOp(idx, o);
+	return execOp(idx, o);
 }
 
 static void randomScenario(uint64_t seed, int nops, int scenario, unsigned kinds, int actPct) {
@@ -176,34 +179,42 @@ static void randomScenario(uint64_t seed, int nops, int scenario, unsigned kinds
 			g_prov.recorded.clear(); runOn(0, o, PM_RANDOM);
 		}
 	} else if (scenario == 1) {				// authority (0) + replica (1) kept in sync through replay
+		g_rec.s("{\"e\":\"mark\",\"k\":\"replica\"}\n");
 		Op c; c.op = "ctor"; c.a = rng.below(5); c.b = rng.below(1000); c.p = rng.below(2);
 		g_prov.recorded.clear(); runOn(0, c, PM_RANDOM);
 		c.a = rng.below(5); runOn(1, c, PM_HOSTILE);
+#if VH_HISTORY
+#if !VH_MANUAL
+		{ Op ro; ro.op = "rt"; ro.a = g_inst[0]->m->activeStateId(); runOn(1, ro, PM_HOSTILE); }	// bring the replica to the authority's initial state
+#endif
 		for (int n = 0; n < nops; ++n) {
 			Op o = randomOp(rng, g_inst[0], false);
-			if (o.op == "load" || o.op == "rt" || o.op == "re") { o = Op(); o.op = "update"; }
+			if (o.op == "load" || o.op == "rt" || o.op == "re" || o.op == "copy") continue;
 			const bool wasActive = g_inst[0]->active();
-			g_prov.recorded.clear(); runOn(0, o, PM_RANDOM);
-#if VH_HISTORY
-			if (o.op == "update" || o.op == "react" || o.op == "ito" || o.op == "iwith" || o.op == "enter") {
-				const FSM::Transition& pt = g_inst[0]->m->previousTransition();
-				Op ro;
-				if (!wasActive) { ro.op = "re"; ro.a = pt ? pt.destination : 0; runOn(1, ro, PM_HOSTILE); }
-				else if (pt)	{ ro.op = "rt"; ro.a = pt.destination; runOn(1, ro, PM_HOSTILE); }
-				else			{ ro.op = "obs"; runOn(1, ro, PM_HOSTILE); }
+			g_prov.recorded.clear();
+			if (!runOn(0, o, PM_RANDOM)) continue;
+			const bool nowActive = g_inst[0]->active();
+			const FSM::Transition& pt = g_inst[0]->m->previousTransition();
+			Op ro;
+			if (!wasActive && nowActive) { ro.op = "re"; ro.a = pt ? pt.destination : 0; runOn(1, ro, PM_HOSTILE); }
+			else if (wasActive && nowActive && (o.op == "update" || o.op == "react" || o.op == "ito" || o.op == "iwith")) {
+				if (pt) { ro.op = "rt"; ro.a = pt.destination; } else ro.op = "obs";
+				runOn(1, ro, PM_HOSTILE);
 			}
-#else
-			(void) wasActive;
-#endif
 		}
+#endif
 	} else if (scenario == 2) {				// lanes: same operations and decisions over different memory fills, plus copies
+		g_rec.s("{\"e\":\"mark\",\"k\":\"lanes\"}\n");		// lane 2 (and its copies) never get a logger: their non-log trace must still be identical
 		const int lanes = 3;
 		Op c; c.op = "ctor"; c.b = rng.below(1000); c.p = rng.below(2);
+		const long withLogger = c.p;
 		for (int l = 0; l < lanes; ++l) {
 			c.a = l == 0 ? 0 : l == 1 ? 1 : 4;
+			c.p = l == 2 ? 0 : withLogger;
 			if (l == 0) { g_prov.recorded.clear(); runOn(0, c, PM_RANDOM); }
 			else { g_prov.replay = g_prov.recorded; runOn(l, c, PM_REPLAY); }
 		}
+		bool nolog[MAX_INST] = { false, false, true, false, false, false };
 		int live = lanes;
 		const int copyAt = nops > 4 ? 2 + rng.below(nops - 3) : -1;
 		const int copyAt2 = nops > 8 ? 2 + rng.below(nops - 3) : -1;
@@ -211,14 +222,17 @@ static void randomScenario(uint64_t seed, int nops, int scenario, unsigned kinds
 			if ((n == copyAt || n == copyAt2) && live < MAX_INST) {
 				Op cp; cp.op = "copy"; cp.a = rng.below(live);
 				runOn(live, cp, PM_NONE);
+				nolog[live] = nolog[cp.a];
 				++live;
 			}
 			Op o = randomOp(rng, g_inst[0], false);
 			g_prov.recorded.clear(); runOn(0, o, PM_RANDOM);
 			g_prov.replay = g_prov.recorded;
-			for (int l = 1; l < live; ++l) runOn(l, o, PM_REPLAY);
+			for (int l = 1; l < live; ++l)
+				if (!(o.op == "attach" && nolog[l])) runOn(l, o, PM_REPLAY);
 		}
-	} else {								// two independent instances exchanging saved state
+	} else {
+		g_rec.s("{\"e\":\"mark\",\"k\":\"saveload\"}\n");								// two independent instances exchanging saved state
 		for (int n = 0; n < nops; ++n) {
 			const int who = rng.below(2);
 			Op o = randomOp(rng, g_inst[who], true);
